@@ -629,6 +629,18 @@ CAMLprim value vp_fileset_source(value f) { return mk_ptr(mtbl_fileset_source(PT
 CAMLprim value vp_fileset_reload(value f) { mtbl_fileset_reload(PTR(f)); return Val_unit; }
 CAMLprim value vp_fileset_reload_now(value f) { mtbl_fileset_reload_now(PTR(f)); return Val_unit; }
 
+/* mtbl_fileset_partition by the parity of the number in the file name: (merger 1, merger 2) */
+CAMLprim value vp_fileset_partition(value f, value parity)
+{
+	CAMLparam2(f, parity);
+	CAMLlocal1(r);
+	struct mtbl_merger *m1 = NULL, *m2 = NULL;
+	mtbl_fileset_partition(PTR(f), vp_fname_filter, (void *)(intptr_t) Long_val(parity), &m1, &m2);
+	r = caml_alloc_tuple(2);
+	Store_field(r, 0, mk_ptr(m1)); Store_field(r, 1, mk_ptr(m2));
+	CAMLreturn(r);
+}
+
 /* ---- process-level resource observation (C18) -------------------------------------- */
 #include <malloc.h>
 CAMLprim value vp_heap_in_use(value unit)
